@@ -488,3 +488,37 @@ func Entails(facts []Ineq, goal Ineq) bool {
 	all := append(append(make([]Ineq, 0, len(sl)+1), sl...), neg)
 	return Infeasible(all, 6000)
 }
+
+// UpperBound computes an upper bound of l from per-variable ranges (interval arithmetic).
+// rng returns (lo, hi, hasLo, hasHi) for a variable. ok=false if unbounded or on overflow.
+func (l *Lin) UpperBound(rng func(v int) (int64, int64, bool, bool)) (int64, bool) {
+	if l.bad {
+		return 0, false
+	}
+	ub := l.c
+	for i, v := range l.vs {
+		lo, hi, hasLo, hasHi := rng(v)
+		c := l.cs[i]
+		var t int64
+		var ok bool
+		if c > 0 {
+			if !hasHi {
+				return 0, false
+			}
+			t, ok = mulOK(c, hi)
+		} else {
+			if !hasLo {
+				return 0, false
+			}
+			t, ok = mulOK(c, lo)
+		}
+		if !ok {
+			return 0, false
+		}
+		ub, ok = addOK(ub, t)
+		if !ok {
+			return 0, false
+		}
+	}
+	return ub, true
+}
